@@ -83,6 +83,14 @@ func genC15Plan(r *zsim.Rng) *sysPlan {
 	case 4:
 		if r.Bool() {
 			p.Args = append(p.Args, "--info", "inline-right")
+			if r.Bool() {
+				// many lines: the counters get several columns shorter when a query cuts the list down
+				p.Lines.N = r.Range(1000, 2500)
+				p.Gens[0] = p.Lines
+				if p.Cols < 60 {
+					p.Cols = r.Range(60, 110)
+				}
+			}
 		}
 	}
 	if r.Chance(1, 5) {
@@ -252,6 +260,14 @@ func c15Settle(r *sysRun, busy bool) {
 				rest = rest[i+len(st.Query):]
 			}
 			m = infoRe.FindStringSubmatch(rest)
+			if info == "inline-right" && m != nil && st.Query != "" && t.xoffset == 0 && runeWidthOf("> "+st.Query)+20 < cols {
+				// right-aligned counters: nothing but blanks between the query and them (no left-over of an
+				// earlier, longer text)
+				if loc := infoRe.FindStringIndex(rest); loc != nil && strings.TrimSpace(rest[:loc[0]]) != "" {
+					c.violate("c15.info", "prompt row %q: %q stands between the query and the counters (%s)%s", scr[infoRow], strings.TrimSpace(rest[:loc[0]]), where, dump())
+					return
+				}
+			}
 			if m == nil && runeWidthOf("> "+st.Query)+12 > cols {
 				m = []string{"", strconv.Itoa(len(st.Matches)), strconv.Itoa(st.Count), "", ""}
 				if wantSel > 0 {
